@@ -46,7 +46,7 @@ func checkC20(c *Ctx, e *Env) {
 		"I1 the port handed to GetActiveChannelID, ChannelCapabilityPath and SendTx is the one term NewControllerPortID(req.Owner) and the connection is req.ConnectionId; " +
 		"I2 every committed path performs exactly one SendTx, behind found==true of the active-channel lookup and of the capability lookup whose results are the channel/capability passed on; SendTx and RegisterInterchainAccount call sites are reachable only through their handler; " +
 		"I3 the packet has constant type EXECUTE_TX, empty memo and Data = SerializeCosmosTx(keeper codec, exactly [req.Msg.GetCachedValue().(sdk.Msg)]); nothing stores into the request; I4 the context is the handler's and the timeout is block time plus a positive constant; " +
-		"I5 GetSigners of both messages returns exactly [bech32(Owner)]; RegisterAccount forwards (ConnectionId, Owner, Version)."
+		"I5 GetSigners of both messages returns exactly [bech32(Owner)]; RegisterAccount forwards (ConnectionId, Owner, Version); I6 every aborting path of SubmitTx is one of the refusals the statement lists."
 	c.NotDecided = []string{"that ibc-go derives the port injectively from the owner and delivers the packet (dependency)", "byte-level round trip of SerializeCosmosTx", "mutation of the cached inner message through its concrete type before serialisation"}
 	c.Assumptions = []string{"A6", "A7"}
 	m := e.Model("x/intertx")
@@ -220,6 +220,37 @@ func checkC20(c *Ctx, e *Env) {
 		} else {
 			c.Violate("C20."+parts[0], parts[1], p.Pos(h.Fn.Pos()), a.det, nil)
 		}
+	}
+
+	// ---------------- I6: SubmitTx refuses a message only for the reasons the statement lists
+	// (every aborting path is classified by where its error comes from / the decision that led to it:
+	// the error of one of the calls the rules above require — port derivation, serialisation, SendTx —,
+	// no active channel, no capability, or an inner value that is not an sdk.Msg). Any other refusal,
+	// e.g. validating the inner message with this chain's rules, means "sends exactly the supplied
+	// message" fails for messages the statement covers.
+	{
+		bad := ""
+		n := 0
+		for _, o := range h.AbortOuts {
+			n++
+			st := o.St
+			origin := ""
+			if idx := errResultIndex(h.Fn.Signature); idx >= 0 && idx < len(o.Rets) {
+				if ev, ok := o.Rets[idx].(*ErrV); ok {
+					origin = ev.Origin
+				}
+			}
+			last := ""
+			if len(st.facts) > 0 {
+				last = st.facts[len(st.facts)-1]
+			}
+			okOrigin := strings.HasPrefix(origin, "NewControllerPortID(") || strings.HasPrefix(origin, "SerializeCosmosTx(") || strings.HasPrefix(origin, "invoke:SendTx(")
+			okFact := strings.HasPrefix(last, "-Bool(invoke:GetActiveChannelID(") || strings.HasPrefix(last, "-Bool(invoke:GetCapability(") || strings.HasPrefix(last, "-TypeIs(Any.GetCachedValue(req.Msg),")
+			if !okOrigin && !okFact && bad == "" {
+				bad = "an aborting path returns an error from " + origin + " after deciding " + last
+			}
+		}
+		c.Check(bad == "" && n >= 5, "C20.I6", "SubmitTx#refusals", p.Pos(h.Fn.Pos()), fmt.Sprintf("%d aborting paths, each caused by: port derivation / serialisation / SendTx error, no active channel, no capability, or an inner value that is not an sdk.Msg %s", n, bad))
 	}
 
 	// ---------------- I3: nothing stores into the request (handler and everything it reaches in the module)
